@@ -5,6 +5,7 @@ Props/C09.lean — C09 "The padding callback is obeyed and existing padding is r
 import MutagenModel.Proofs.Container.Flac
 import MutagenModel.Proofs.Container.Id3File
 import MutagenModel.Proofs.Padding
+import MutagenModel.Proofs.Container.Iff
 set_option linter.unusedVariables false
 namespace Mutagen.C09
 open Mutagen Mutagen.Generated
@@ -91,5 +92,96 @@ theorem id3_keep_is_inplace (L : Id3F.Layout) (h : L.OK) (vmaj : Nat) (hvm : vma
       simp [Id3F.magicID3]; omega
     rw [List.append_assoc _ L.audio]
     exact List.drop_left' hl
+
+/-! ## IFF-style chunk files (AIFF, WAVE, DSDIFF) -/
+
+/-- IFF: the callback is offered `chunk.data_size - (len(frames) + 10)` (`oldLen`: the data size of
+the existing ID3 chunk, 0 for a chunk just inserted) and told how many bytes follow the chunk data in
+the file (`trailing`: the chunk's pad byte and the later chunks); the ID3 chunk of the saved file
+holds a 10-byte header, the frames and exactly as many zero bytes as it answered -/
+theorem iff_padding_obeyed (d : Iff.Dialect) (hd : d.WF) (L : Iff.Layout) (h : L.OK d) (vmaj : Nat)
+    (hvm : vmaj = 3 ∨ vmaj = 4) (frames : Bytes) (cb : Int → Nat → Int) (p : Nat)
+    (hp : cb ((L.oldLen : Int) - (frames.length + 10 : Nat)) (L.trailing d) = p)
+    (hfit : frames.length + p < 2 ^ 28) (hroot : 4 + L.newExtent d (10 + frames.length + p) < 256 ^ d.sizeW) :
+    ∃ hdr, hdr.length = 10 ∧
+      Iff.save d (L.render d) vmaj frames (.callback cb) =
+        .ok (Iff.renderFile d L.formType (L.before ++ Iff.tagChunk (L.id3Id d) (hdr ++ frames ++ zeros p) :: L.after)) := by
+  obtain ⟨hdr, h1, h2, h3⟩ := Iff.save_layout d hd L h vmaj hvm frames (.callback cb) p (by simpa [getPadding] using hp) hfit hroot
+  refine ⟨hdr, h2, ?_⟩
+  rw [h3]
+  simp [Iff.Layout.render, Iff.Layout.withTag, Iff.Layout.chunks]
+
+/-- a callback that answers with a negative number makes the save fail (MutagenError) -/
+theorem iff_negative_padding_refused (d : Iff.Dialect) (hd : d.WF) (L : Iff.Layout) (h : L.OK d) (c : Iff.Chunk) (hc : L.id3 = some c)
+    (vmaj : Nat) (hvm : vmaj = 3 ∨ vmaj = 4) (frames : Bytes) (cb : Int → Nat → Int)
+    (hneg : cb ((c.data.length : Int) - (frames.length + 10 : Nat)) (c.pad.length + (Iff.renderChunks d L.after).length) < 0) :
+    Iff.save d (L.render d) vmaj frames (.callback cb) = .error .mutagen := by
+  have hcs := Iff.chunks_some L c hc
+  have hc' := h.id3 c hc
+  have hall : ∀ x ∈ L.before ++ c :: L.after, x.OK d := by
+    intro x hx
+    simp only [List.mem_append, List.mem_cons] at hx
+    rcases hx with hx | rfl | hx
+    · exact (h.before x hx).1
+    · exact hc'.1
+    · exact h.after x hx
+  have hlen := Iff.length_renderFile d hd L.formType (L.before ++ c :: L.after)
+  have hsp := Iff.length_chunks_split d L.before c L.after hc'.1.1.1
+  unfold Iff.save
+  rw [Iff.Layout.render, hcs, Iff.parseRoot_render d hd _ h.name _ (by rw [h.name.1, ← hcs]; exact h.size)]
+  simp only []
+  rw [Iff.walk_render d hd _ h.name.1 _ hall]
+  simp only []
+  rw [Iff.find_first d d.loadIds _ L.before c L.after (fun x hx => (h.before x hx).2) hc'.2]
+  simp only [Iff.recOf]
+  unfold Iff.saveAt
+  have h0 : ¬ (vmaj ≠ 3 ∧ vmaj ≠ 4) := by omega
+  simp only []
+  rw [if_neg h0]
+  have htr : ((Iff.renderFile d L.formType (L.before ++ c :: L.after)).length : Int) -
+      ((Iff.hs d + 4 + (Iff.renderChunks d L.before).length + Iff.hs d : Nat) : Int) - (c.data.length : Int) =
+      ((c.pad.length + (Iff.renderChunks d L.after).length : Nat) : Int) := by
+    rw [hlen, hsp, h.name.1]; omega
+  rw [htr]
+  have h1 : ¬ (((c.pad.length + (Iff.renderChunks d L.after).length : Nat) : Int) < 0) := by omega
+  rw [if_neg h1]
+  simp only [Int.toNat_natCast, getPadding]
+  exact if_pos hneg
+
+/-- answering with the offered padding (when the new frames fit into the existing chunk) is an in-place
+save: the file keeps its length, everything in front of the ID3 chunk's data — root header with its
+size field, form type, the chunks before, the chunk's own header — and everything behind its pad
+byte keeps its bytes and its position -/
+theorem iff_keep_is_inplace (d : Iff.Dialect) (hd : d.WF) (L : Iff.Layout) (h : L.OK d) (c : Iff.Chunk) (hc : L.id3 = some c)
+    (vmaj : Nat) (hvm : vmaj = 3 ∨ vmaj = 4) (frames : Bytes)
+    (hroom : frames.length + 10 ≤ c.data.length) (hfit : c.data.length < 2 ^ 28) :
+    let dataOff := Iff.hs d + 4 + (Iff.renderChunks d L.before).length + Iff.hs d
+    ∃ out, Iff.save d (L.render d) vmaj frames (.callback fun p _ => p) = .ok out ∧
+      out.length = (L.render d).length ∧ out.take dataOff = (L.render d).take dataOff ∧
+      out.drop (dataOff + (c.data.length + c.data.length % 2)) = (L.render d).drop (dataOff + (c.data.length + c.data.length % 2)) := by
+  have hc' := h.id3 c hc
+  have hcs := Iff.chunks_some L c hc
+  have hN : 10 + frames.length + (c.data.length - (frames.length + 10)) = c.data.length := by omega
+  have hsz := h.size
+  rw [hcs, Iff.length_chunks_split d L.before c L.after hc'.1.1.1, hc'.1.2] at hsz
+  obtain ⟨hdr, h1, h2, h3⟩ := Iff.save_layout d hd L h vmaj hvm frames (.callback fun p _ => p) (c.data.length - (frames.length + 10))
+    (by simp [getPadding, Iff.Layout.oldLen, hc]; omega) (by omega)
+    (by rw [hN]; unfold Iff.Layout.newExtent; omega)
+  have hl : (hdr ++ frames ++ zeros (c.data.length - (frames.length + 10))).length = c.data.length := by simp [h2]; omega
+  have := Iff.same_size_inplace d hd L.formType h.name.1 L.before L.after c
+    (Iff.tagChunk c.id (hdr ++ frames ++ zeros (c.data.length - (frames.length + 10)))) hc'.1.1.1 rfl hl hc'.1.2 (by simp [Iff.tagChunk])
+  simp only [] at this ⊢
+  refine ⟨_, h3, ?_⟩
+  have e : (L.withTag d (hdr ++ frames ++ zeros (c.data.length - (frames.length + 10)))).render d =
+      Iff.renderFile d L.formType (L.before ++ Iff.tagChunk c.id (hdr ++ frames ++ zeros (c.data.length - (frames.length + 10))) :: L.after) := by
+    simp [Iff.Layout.render, Iff.Layout.withTag, Iff.Layout.chunks, Iff.Layout.id3Id, hc]
+  rw [e, Iff.Layout.render, hcs]
+  exact this
+
+/-- non-vacuity: with the default policy an AIFF ID3 chunk of 1000 bytes followed by 50000 bytes of
+other chunks keeps the 490 bytes left over by 500 bytes of frames; a chunk that is too small gets 1 KiB
+plus 0.1 % of what follows -/
+example : getPadding .default ((1000 : Int) - (500 + 10 : Nat)) 50000 = (490 : Nat) ∧
+    getPadding .default ((100 : Int) - (500 + 10 : Nat)) 50000 = (1074 : Nat) := by decide
 
 end Mutagen.C09
